@@ -167,7 +167,9 @@ class Run:
             self.assume(claim)
             return
         ex.seen_obligations.add(key)
-        c = simp(claim) if is_sym(claim) else claim
+        c = claim
+        if is_sym(c):
+            c = True if z3.is_true(c) else (False if z3.is_false(c) else c)
         if c is True:
             ex.record(Obligation(name, 'discharged', trivial=True, detail=detail))
             return
@@ -222,6 +224,32 @@ class Run:
         if c is False:
             raise PathEnd('obligation false')
         self.assume(c)
+
+    def oblige_all(self, named):
+        """several clauses at one program point: one solver call for the conjunction; the clauses are checked one by one
+        only if the conjunction is not discharged (so that the failing clause is named)"""
+        items = [(n, c) for n, c in named if not (c is True)]
+        key = ('ALL',) + tuple(n for n, _ in named) + (tuple(self.decisions),)
+        sym = [(n, c) for n, c in items if is_sym(c)]
+        if len(sym) >= 3 and all(c is not False for _, c in items) and key not in self.ex.seen_obligations:
+            t0 = time.time()
+            self.solver.push()
+            self.solver.add(z3.Not(z3.And(*[zbool(c) for _, c in sym])))
+            r = self.solver.check()
+            self.solver.pop()
+            if r == z3.unsat:
+                self.ex.seen_obligations.add(key)
+                secs = (time.time() - t0) / max(1, len(named))
+                for n, c in named:
+                    k2 = (n, tuple(self.decisions))
+                    if k2 not in self.ex.seen_obligations:
+                        self.ex.seen_obligations.add(k2)
+                        self.ex.record(Obligation(n, 'discharged', secs, trivial=(c is True), detail='discharged as part of a conjunction'))
+                for n, c in sym:
+                    self.assume(c)
+                return
+        for n, c in named:
+            self.oblige(n, c)
 
     def concretize_inputs(self, model):
         out = {}
